@@ -1995,6 +1995,7 @@ Grammar* DGXMLScanner::loadGrammar(const   InputSource& src
         // Reset some status flags
         fInException = false;
         fStandalone = false;
+        fXMLVersion = XMLReader::XMLV1_0;
         fErrorCount = 0;
         fHasNoDTD = true;
 
@@ -2444,6 +2445,7 @@ void DGXMLScanner::scanReset(const InputSource& src)
     // Reset some status flags
     fInException = false;
     fStandalone = false;
+    fXMLVersion = XMLReader::XMLV1_0;
     fErrorCount = 0;
     fHasNoDTD = true;
 
